@@ -52,7 +52,9 @@ MUTANTS = [
                                     debug!("Server connection marked for clean up");'''),
     dict(id="c02-copy-mode-reused", prop="C02", file="src/server.rs", expect="C02-R6",
          what="copy mode at check-in only warns again",
-         old='''            self.mark_bad("returned while still in copy-mode");''', new='''            debug!("returned while still in copy-mode");'''),
+         old='''            self.mark_bad("returned while still in copy-mode");
+            return Ok(());''', new='''            debug!("returned while still in copy-mode");
+            return Ok(());'''),
     # ------------------------------------------------------------------ C05
     dict(id="c05-catchall-replica", prop="C05", file="src/query_router.rs", expect="C05-R1",
          what="write arm routes to the replica",
@@ -234,35 +236,17 @@ MUTANTS = [
                                 continue;'''),
     dict(id="c19-overwrite-again", prop="C19", file="src/client.rs", expect="C19-R2",
          what="idle-loop Parse arm overwrites the pending verdict again",
-         old='''                                if query_router.query_parser_enabled() {
-                                    let _ = query_router.infer(&ast);
+         old='''                                    let _ = query_router
+                                        .infer_for_batch(&ast, earlier_parse_in_batch);
                                 }
                             }
-                            Err(error) => {
-                                warn!(
-                                    "Query parsing error: {} (client: {})",
-                                    error, client_identifier
-                                );
-                            }
-                        };
-                    }
-
-                    self.buffer_parse(message, &pool)?;''',
-         new='''                                if query_router.query_parser_enabled() {
-                                    let _ = query_router.infer(&ast);
+                            Err(error) => {''',
+         new='''                                    let _ = query_router
+                                        .infer_for_batch(&ast, earlier_parse_in_batch);
                                 }
                                 if let Ok(o) = query_router.execute_plugins(&ast).await { plugin_output = Some(o); }
                             }
-                            Err(error) => {
-                                warn!(
-                                    "Query parsing error: {} (client: {})",
-                                    error, client_identifier
-                                );
-                            }
-                        };
-                    }
-
-                    self.buffer_parse(message, &pool)?;'''),
+                            Err(error) => {'''),
     dict(id="c19-no-case-fold", prop="C19", file="src/plugins/table_access.rs", expect="C19-R4",
          what="unquoted names no longer folded",
          old='''                Some(ident) => ident.value.to_lowercase(),''', new='''                Some(ident) => ident.value.clone(),'''),
@@ -319,12 +303,14 @@ MUTANTS = [
             };'''),
     dict(id="c10-key-by-pid-only", prop="C10", file="src/client.rs", expect="C10-R",
          what="Drop removes a different key",
-         old='''        let mut guard = self.client_server_map.lock();
-        guard.remove(&(self.process_id, self.secret_key));
+         old='''            let mut guard = self.client_server_map.lock();
+            guard.remove(&(self.process_id, self.secret_key));
+        }
 
         // Dirty shutdown''',
-         new='''        let mut guard = self.client_server_map.lock();
-        guard.remove(&(self.process_id, 0));
+         new='''            let mut guard = self.client_server_map.lock();
+            guard.remove(&(self.process_id, 0));
+        }
 
         // Dirty shutdown'''),
     # ------------------------------------------------------------------ C08
@@ -463,7 +449,7 @@ MUTANTS = [
         );
         self''', new='''            PREPARED_STATEMENT_COUNTER.fetch_add(1, Ordering::SeqCst)
         );
-        self.query = self.query.trim().to_string();
+        self.query = self.query.trim_ascii().to_vec();
         self'''),
     dict(id="c08-insert-under-rewritten-name", prop="C08", file="src/client.rs", expect="C08-R4",
          what="client map keyed by the rewritten name",
@@ -895,12 +881,12 @@ pub struct ServerPool {'''),
          what="the transaction loop also reacts to the shutdown broadcast",
          old='''                trace!("Client message: {}", code);
 
-                match code {''', new='''                trace!("Client message: {}", code);
+                // During COPY ... FROM STDIN the server is read again only when the COPY ends. Anything''', new='''                trace!("Client message: {}", code);
                 if self.shutdown.try_recv().is_ok() && !self.admin {
                     return Ok(());
                 }
 
-                match code {'''),
+                // During COPY ... FROM STDIN the server is read again only when the COPY ends. Anything'''),
     dict(id="c17-missing-decrement", prop="C17", file="src/client.rs", expect="C17-R3",
          what="the TLS path forgets the -1",
          old='''                        let result = client.handle().await;
